@@ -521,6 +521,22 @@ pub fn enumerate(thorough: bool, seed: u64, f: &(dyn Fn(&Program, u64, &str, &mu
         });
         total_stats.merge(s);
     }
+    // (9) entry counts around the 16-bit limit x comment variants (the end records change shape at 65536 entries)
+    let counts = [65_534usize, 65_535, 65_536, 65_537];
+    let s = par_for((counts.len() * 3) as u64, 1, |i, st| {
+        let n = counts[i as usize / 3];
+        let comment = match i % 3 {
+            0 => None,
+            1 => Some(b"c".to_vec()),
+            _ => Some(content_class(3, seed)),
+        };
+        let mut entries: Vec<E> = (0..n - 1).map(|k| E { kind: 0, name: format!("n{k}"), content: vec![b'a' + (k % 26) as u8], opts: FOpts::m(0) }).collect();
+        entries.push(E { kind: 0, name: "last-ü".into(), content: content_class(3, seed), opts: FOpts { perm: Some(0o600), ..FOpts::m(8) } });
+        let p = Program { entries, comment, comment_last: i % 2 == 1 };
+        f(&p, (9 << 32) + i, "many-entries", st);
+    });
+    total_stats.merge(s);
+    bounds.insert("many_entries".into(), json!("{65534, 65535, 65536, 65537} entries x comment {none, 1 byte, 300 bytes}"));
     (total_stats, bounds)
 }
 
@@ -533,12 +549,12 @@ pub fn run(args: &Args) -> i32 {
     let thorough = args.tier.thorough();
     ctx.rule = "E-PROD over writer programs: (1) length-1 full product kind x content x name x method/level x large x perm x time; \
         (2) every 9-bit permission value x 3 kinds; (3) every date word x 3 time words and 3 date words x every time word; \
-        (4) every documented method/level pair x every content class, and 25 content sizes at internal buffer boundaries (2..1.5 MiB, each written in ONE write call) x every method x {repeating, incompressible}; (5) comment variants; (6) all length-2 and length-3 (thorough: 4) \
+        (4) every documented method/level pair x every content class, and 25 content sizes at internal buffer boundaries (2..1.5 MiB, each written in ONE write call) x every method x {repeating, incompressible}; (5) comment variants; (9) 65534..65537 entries x 3 comment variants; (6) all length-2 and length-3 (thorough: 4) \
         entry lists over reduced alphabets. Each program is executed twice (finish / drop) on the real writer and read back with the real \
         seekable reader; the program is the reference model. distinct_nontrivial = distinct archive byte strings produced (hash set)."
         .into();
     ctx.assume("compressor internals (flate2/bzip2/zstd) are trusted; contents come from 5 (thorough 6) classes with seed-derived bytes");
-    ctx.uncovered("arbitrary multi-MiB contents beyond the listed classes; joint variation of all axes at length >= 2 (reduced alphabets); entry counts around 65535 are C08's");
+    ctx.uncovered("arbitrary multi-MiB contents beyond the listed classes; joint variation of all axes at length >= 2 (reduced alphabets); sizes and offsets beyond 32 bits are C08's");
 
     let (s, bounds) = enumerate(thorough, seed, &|p, order, part, st| {
         check_program(p, st, order, part);
